@@ -175,6 +175,24 @@ func (c *BConn) WaitClosed(timeout time.Duration) string {
 	return c.closed
 }
 
+// FullyClosed tells, after the host has read EOF, whether the gateway really closed the connection or only its
+// sending direction (a half close keeps the socket - and whoever reads from it in the gateway - alive): the host
+// writes into the connection; a closed peer answers with a reset, so a later write fails.
+func (c *BConn) FullyClosed(within time.Duration) bool {
+	if c.Closed() == "rst" || c.Closed() == "closed" {
+		return true
+	}
+	deadline := time.Now().Add(within)
+	for time.Now().Before(deadline) {
+		c.C.SetWriteDeadline(time.Now().Add(200 * time.Millisecond))
+		if _, err := c.C.Write([]byte{0}); err != nil {
+			return true
+		}
+		time.Sleep(30 * time.Millisecond)
+	}
+	return false
+}
+
 func (c *BConn) Closed() string {
 	c.mu.Lock()
 	defer c.mu.Unlock()
